@@ -1041,10 +1041,12 @@ class Deferred(Awaitable[_SelfResultT]):
             current = chain[-1]
 
             if current.paused:
-                # This Deferred isn't going to produce a result at all.  All the
-                # Deferreds up the chain waiting on it will just have to...
-                # wait.
-                return
+                # This Deferred isn't going to produce a result right now, so
+                # it cannot run its callbacks.  The Deferreds below it on the
+                # chain are not waiting on it, though: they handed it their
+                # result and still have to finish their own callbacks.
+                chain.pop()
+                continue
 
             finished = True
             current._chainedTo = None
